@@ -1,8 +1,16 @@
 (* Search/SearchProofs.v — the model of pymap/search.py computes RFC 3501's
    SEARCH semantics: proofs for Props/C13.v. *)
 From PV Require Import Base.Prelude Wire.SeqSet Wire.SeqSetProofs
-     Search.Text Search.Keys Search.Msg Search.Spec Search.Model Search.TextProofs.
+     Search.Text Search.Keys Search.Msg Search.Spec Search.Model Search.TextProofs
+     Search.KeyRow Search.KeyTable Search.Grammar.
 From Coq Require Import Lia ZifyBool.
+
+(* ------------------------------------------ obligations on the generated tables *)
+(* the two recursive keys are dispatched to SearchCriteriaSet / OrSearchCriteria *)
+Lemma row_keyset : row_crit NKEYSET = Some CkKeySet.
+Proof. reflexivity. Qed.
+Lemma row_or : row_crit NOR = Some CkOr.
+Proof. reflexivity. Qed.
 
 (* ------------------------------------------------------------ induction *)
 Definition atomic (k : key) : Prop :=
@@ -71,28 +79,25 @@ Proof.
 Qed.
 
 (* ------------------------------------------------------------- headers *)
-Lemma header_filter_ci name m : wf_msg m = true ->
-  filter (fun h => bytes_eqb (fst h) (lower name)) (m_headers m) =
-  filter (fun h => ci_eqb (fst h) name) (m_headers m).
-Proof.
-  unfold wf_msg. rewrite forallb_forall. intros H.
-  apply filter_ext_in. intros h Hh. apply lookup_ci, H, Hh.
-Qed.
+Lemma header_filter_ci name m :
+  filter (fun h => bytes_eqb (header_key (fst h)) (lower name)) (m_headers m) =
+  filter (fun h => ci_eqb (strip_ws (fst h)) name) (m_headers m).
+Proof. reflexivity. Qed.
 
-Lemma get_header_has name value m : wf_msg m = true ->
+Lemma get_header_has name value m :
   existsb (contains_ci value) (get_header name m) = header_has name value m.
 Proof.
-  intros H. unfold get_header, header_has. rewrite (header_filter_ci _ _ H).
+  unfold get_header, header_has. rewrite header_filter_ci.
   induction (m_headers m) as [|[hn hv] r IH]; [reflexivity|].
-  cbn [filter existsb fst snd]. destruct (ci_eqb hn name); cbn [map existsb andb fst snd].
+  cbn [filter existsb fst snd]. destruct (ci_eqb (strip_ws hn) name); cbn [map existsb andb fst snd].
   - rewrite IH. reflexivity.
   - exact IH.
 Qed.
 
-Lemma get_header_first name m : wf_msg m = true ->
+Lemma get_header_first name m :
   match get_header name m with [] => None | s :: _ => Some s end = first_header name m.
 Proof.
-  intros H. unfold get_header, first_header. rewrite (header_filter_ci _ _ H).
+  unfold get_header, first_header. rewrite header_filter_ci.
   destruct (filter _ _); reflexivity.
 Qed.
 
@@ -156,8 +161,8 @@ Lemma crit_of_not_inverse dis p k c :
 Proof.
   destruct k as [n f inv|l inv|a b inv]; cbn [crit_of not_inverse].
   - destruct (mem_name n dis); [discriminate|]. apply wrap_inv_flip.
-  - destruct (mem_name NKEYSET dis); [discriminate|]. apply wrap_inv_flip.
-  - destruct (mem_name NOR dis); [discriminate|]. apply wrap_inv_flip.
+  - destruct (mem_name NKEYSET dis); [discriminate|]. rewrite row_keyset. apply wrap_inv_flip.
+  - destruct (mem_name NOR dis); [discriminate|]. rewrite row_or. apply wrap_inv_flip.
 Qed.
 
 (* ------------------------------------------------- list of keys = KEYSET *)
@@ -166,7 +171,7 @@ Lemma crit_of_set dis p l inv :
   if mem_name NKEYSET dis then Exc EXC_NOTALLOWED
   else wrap_inv inv (bind (crits_of dis p l) (fun cs => Ok (CSet cs))).
 Proof.
-  cbn [crit_of]. destruct (mem_name NKEYSET dis); [reflexivity|]. f_equal. f_equal.
+  cbn [crit_of]. destruct (mem_name NKEYSET dis); [reflexivity|]. rewrite row_keyset. f_equal. f_equal.
   induction l as [|x r IH]; [reflexivity|]. cbn [crits_of]. rewrite IH. reflexivity.
 Qed.
 
@@ -217,14 +222,15 @@ Proof.
   - (* SMALLER *) reflexivity.
   - (* HEADER *)
     cbn [wf_key] in Hwf. exists (CHeader name value). split.
-    + cbn [compile crit_of mem_name existsb]. cbn [crit_atom wrap_inv]. unfold encode_ascii.
-      rewrite Hwf. reflexivity.
-    + intros m Hm. cbn [matches eval_spec]. apply get_header_has, (in_view_wf _ _ Hv Hm).
+    + cbn [compile crit_of mem_name existsb].
+      change (crit_atom (params_of v) NHEADER (FHdr name value))
+        with (bind (encode_ascii name) (fun nb => Ok (CHeader nb value))).
+      unfold encode_ascii. rewrite Hwf. reflexivity.
+    + intros m Hm. cbn [matches eval_spec]. apply get_header_has.
   - (* BCC CC FROM SUBJECT TO *)
-    destruct h; (eexists; split; [reflexivity|]; intros m Hm; cbn [matches eval_spec];
-      pose proof (in_view_wf _ _ Hv Hm) as W);
-      try (apply get_header_has; exact W).
-    rewrite <- (get_header_first _ _ W). destruct (get_header (field_bytes HSubject) m); reflexivity.
+    destruct h; (eexists; split; [reflexivity|]; intros m Hm; cbn [matches eval_spec]);
+      try apply get_header_has.
+    rewrite <- get_header_first. destruct (get_header (field_bytes HSubject) m); reflexivity.
   - (* BODY *) apply contains_body.
   - (* TEXT *) apply contains_text.
   - (* UID set *)
@@ -250,7 +256,8 @@ Proof.
     + cbn [compile crit_of mem_name existsb]. rewrite Ea, Eb. reflexivity.
     + intros m Hm. cbn [matches eval_spec]. rewrite (Ma m Hm), (Mb m Hm). reflexivity.
   - intros ks IH v Hv Hwf. cbn [wf_key] in Hwf.
-    destruct (crits_agree ks IH v Hv Hwf) as (cs & E & M).
+    assert (Hwf' : forallb wf_key ks = true) by (destruct ks; [discriminate|exact Hwf]).
+    destruct (crits_agree ks IH v Hv Hwf') as (cs & E & M).
     exists (CSet cs). split.
     + cbn [compile]. rewrite crit_of_set. cbn [mem_name existsb]. rewrite E. reflexivity.
     + intros m Hm. cbn [matches eval_spec]. apply M, Hm.
@@ -268,6 +275,15 @@ Qed.
 (* ------------------------------------------------------- the pre-filter *)
 (* every top-level SequenceSetSearchCriteria carries the flattening of its
    own set against the view's maxima *)
+Lemma build_crit_cseq p ck f uid s flat :
+  build_crit p ck f = Ok (CSeq uid s flat) ->
+  flat = seq_iter (if uid then max_uid p else max_seq p) s.
+Proof.
+  destruct ck, f; cbn; try discriminate;
+    try (intros E; injection E as <- <- <-; reflexivity).
+  destruct (encode_ascii name); cbn; discriminate.
+Qed.
+
 Lemma crit_of_cseq dis p k uid s flat :
   crit_of dis p k = Ok (CSeq uid s flat) ->
   flat = seq_iter (if uid then max_uid p else max_seq p) s.
@@ -276,13 +292,13 @@ Proof.
   - destruct (mem_name n dis); [discriminate|].
     destruct inv.
     + unfold wrap_inv. destruct (crit_atom p n f); cbn; intros E; discriminate E || inversion E.
-    + unfold wrap_inv. destruct n, f; cbn; try discriminate;
-        try (intros E; injection E as <- <- <-; reflexivity).
-      destruct (encode_ascii name); cbn; discriminate.
-  - destruct (mem_name NKEYSET dis); [discriminate|]. unfold wrap_inv.
+    + unfold wrap_inv, crit_atom. destruct (row_crit n) as [ck|]; [|discriminate].
+      destruct (build_crit p ck f) as [c| | |] eqn:E; cbn; try discriminate.
+      intros H. injection H as ->. apply (build_crit_cseq _ _ _ _ _ _ E).
+  - destruct (mem_name NKEYSET dis); [discriminate|]. rewrite row_keyset. unfold wrap_inv.
     match goal with |- bind (bind ?x _) _ = _ -> _ => destruct x end; cbn; try discriminate.
     destruct inv; discriminate.
-  - destruct (mem_name NOR dis); [discriminate|]. unfold wrap_inv.
+  - destruct (mem_name NOR dis); [discriminate|]. rewrite row_or. unfold wrap_inv.
     destruct (crit_of dis p a); cbn; try discriminate.
     destruct (crit_of dis p b); cbn; try discriminate. destruct inv; discriminate.
 Qed.
@@ -523,8 +539,8 @@ Proof. intros H. cbn [crit_of]. rewrite H. reflexivity. Qed.
 
 (* ---- the hypotheses are satisfiable by a non-trivial value *)
 Definition ex_msg (uid seq : N) (fl : list bytes) (d : date) : msg :=
-  mkMsg uid seq fl 100 d (Some d)
-        [([115;117;98;106;101;99;116]%N, [72;105]%N)]
+  mkMsg uid seq fl 100 d None None
+        [([83;117;98;106;101;99;116;32]%N, [72;105]%N)]
         [mkPart [83;117;98;106;101;99;116;58;32;72;105;13;10;13;10]%N true [98;111;100;121]%N]
         [] [].
 Definition ex_view : view :=
@@ -588,16 +604,17 @@ Proof.
     { intros x. rewrite (M x), negb_involutive. reflexivity. }
     rewrite !G, (IH _ _ _ Ec R m). reflexivity.
   - intros a b IHa IHb dis p c E R m. cbn [compile crit_of] in E.
-    destruct (mem_name NOR dis); [discriminate|].
+    destruct (mem_name NOR dis); [discriminate|]. rewrite row_or in E.
     destruct (crit_of dis p (compile a)) as [ca| | |] eqn:Ea; try discriminate.
     destruct (crit_of dis p (compile b)) as [cb| | |] eqn:Eb; try discriminate.
     cbn in E. injection E as <-. cbn [compile requirement] in R.
-    apply land_lor_zero in R as [Ra Rb]. cbn [matches].
+    apply land_lor_zero in R as [_ R]. apply land_lor_zero in R as [Ra Rb]. cbn [matches].
     rewrite (IHa _ _ _ Ea Ra m), (IHb _ _ _ Eb Rb m). reflexivity.
   - intros ks IH dis p c E R m. cbn [compile] in E. rewrite crit_of_set in E.
     destruct (mem_name NKEYSET dis); [discriminate|].
     destruct (crits_of dis p (map compile ks)) as [cs| | |] eqn:Es; try discriminate.
     cbn in E. injection E as <-. cbn [matches].
+    cbn [compile requirement] in R. apply land_lor_zero in R as [_ R].
     apply (crits_content_free ks IH _ _ _ Es R m).
 Qed.
 
@@ -616,3 +633,40 @@ Proof.
   assert (HF : Forall content_free prog) by (apply Forall_forall; intros k _; apply requirement_sufficient).
   apply (crits_content_free prog HF _ _ _ E L m).
 Qed.
+
+(* ------------------------------- the generated grammar table vs the RFC keys *)
+(* every RFC key that starts with a keyword is in SearchKey.parse's table with
+   the argument shape the RFC gives it, and the branch constructs the key name
+   [compile] uses *)
+Theorem grammar_has_key k w sh : key_word k = Some (w, sh) ->
+  find_grow grammar_table w = Some (mk_grow w sh (skey_name (compile k))).
+Proof.
+  destruct k; try destruct f; try destruct h; cbn [key_word set_word unset_word field_word];
+    intros E; try discriminate E; injection E as <- <-; reflexivity.
+Qed.
+
+(* ... and the filter [compile] attaches has that shape *)
+Theorem compile_filter_shape k w sh : key_word k = Some (w, sh) ->
+  match compile k with
+  | SKAtom _ f _ => shape_of_filter f = Some sh
+  | SKOr _ _ _ => sh = ShOr
+  | SKSet _ _ => False
+  end.
+Proof.
+  destruct k; try destruct f; try destruct h; cbn [key_word]; intros E; try discriminate E;
+    injection E as <- <-; reflexivity.
+Qed.
+
+(* the parser accepts no keyword outside the RFC keys; every key name has one
+   dispatch row; no key is disabled by default; and the prefix of
+   SearchKey.parse consumes NOT repeatedly, reads a bare set as sequence
+   numbers even inside UID SEARCH and refuses "()" *)
+Theorem tables_closed :
+  grammar_only_rfc = true /\ dispatch_complete = true /\ default_disabled = [] /\
+  not_repeats = true /\ bare_set_uid = false /\ keyset_nonempty = true.
+Proof. repeat split; vm_compute; reflexivity. Qed.
+
+(* an empty KEYSET would match everything (all([]) is True): it is the parser
+   (keyset_nonempty) that keeps it out *)
+Lemma empty_keyset_matches_all m : matches (CSet []) m = true.
+Proof. reflexivity. Qed.
